@@ -601,10 +601,10 @@ def t1(ctx, label, pre, post, total, small, configs, full_universe=False, strict
         # TLC reports coverage per disjunct of Next (source order: Pre, DoClone, Post)
         import re
 
-        dis = sorted(
-            (int(m.group(1)), int(m.group(3)))
-            for m in re.finditer(r"^<Next line \d+, col \d+ to line \d+, col \d+ of module MCModelClone \((\d+) (\d+) \d+ \d+\)>: \d+:(\d+)", res.stdout, re.M)
-        )
+        per = {}
+        for m in re.finditer(r"^<Next line \d+, col \d+ to line \d+, col \d+ of module MCModelClone \((\d+) (\d+) \d+ \d+\)>: \d+:(\d+)", res.stdout, re.M):
+            per[int(m.group(1))] = max(per.get(int(m.group(1)), 0), int(m.group(3)))  # (coverage is printed more than once)
+        dis = sorted(per.items())
         taken = dict(zip(("Pre", "DoClone", "Post"), [n for _, n in dis]))
         idle = [a for a in ("Pre", "DoClone", "Post") if not taken.get(a)]
         if len(dis) != 3 or idle:
